@@ -1,13 +1,23 @@
 """Evaluate one seeded change: /verif/seeded/<id>/{patch.diff, demo.py}.
-Applies the patch to /repo (which must be clean), confirms that the repository's own suite still passes and that the
-demonstration fails with the patch, runs the requested checks (default: all, three at a time), restores /repo, and
-writes what was observed to seeded/<id>/meta.json.    usage: seedtest.py <id> [Cxx ...]"""
+
+The patch is applied to a scratch git worktree of /repo (outside /repo and /verif); the repository's own suite, the
+demonstration and the requested checks all run against that copy through PYTHONPATH=<worktree>/src, with evidence and
+replay files redirected to a scratch directory (VERIF_OUT), so /repo, /verif/evidence and /verif/replays are never
+touched and several seeded changes can be evaluated at the same time.  The worktree is removed afterwards.  What was
+observed is appended to seeded/<id>/meta.json.
+
+usage: seedtest.py <id> [Cxx ...]            (default: the property named in meta.json)
+       seedtest.py --all-checks <id>         (every check)
+       seedtest.py --inplace <id> [Cxx ...]  (old behaviour: git -C /repo apply ... checkout)
+"""
 import concurrent.futures as cf
 import json
 import os
 import re
+import shutil
 import subprocess
 import sys
+import tempfile
 import time
 
 ROOT = os.path.dirname(os.path.dirname(os.path.abspath(__file__)))
@@ -18,47 +28,79 @@ def sh(cmd, **kw):
     return subprocess.run(cmd, shell=True, capture_output=True, text=True, **kw)
 
 
-def run_check(p):
+def run_check(p, env, tier="quick"):
     t0 = time.time()
-    r = sh("cd %s && VERIF_SEED=%s ./check %s --tier quick" % (ROOT, os.environ.get("VERIF_SEED", "0"), p))
+    r = sh("cd %s && ./check %s --tier %s" % (ROOT, p, tier), env=env)
     clauses = sorted(set(re.findall(r"^VIOLATION property=\S+ replay=\S+ clause=(\S+)", r.stdout, flags=re.M)))
+    if r.returncode == 2:
+        clauses = ["MACHINERY: " + (r.stdout + r.stderr)[-300:]]
     return p, r.returncode, clauses, round(time.time() - t0, 1)
 
 
 def main():
-    sid = sys.argv[1]
-    checks = sys.argv[2:] or ALL
+    args = sys.argv[1:]
+    inplace = "--inplace" in args
+    allchecks = "--all-checks" in args
+    args = [a for a in args if not a.startswith("--")]
+    sid = args[0]
     d = os.path.join(ROOT, "seeded", sid)
     meta_path = os.path.join(d, "meta.json")
     meta = json.load(open(meta_path)) if os.path.exists(meta_path) else {}
-    if sh("git -C /repo status --porcelain").stdout.strip():
-        print("refusing: /repo is not clean")
-        return 2
+    checks = args[1:] or (ALL if allchecks else [meta["property"]])
+    seed = os.environ.get("VERIF_SEED", "0")
     demo = os.path.join(d, "demo.py")
-    base_demo = sh("cd /tmp && /venv/bin/python %s" % demo).returncode
-    r = sh("git -C /repo apply %s/patch.diff" % d)
-    if r.returncode:
-        print("patch does not apply:", r.stderr)
-        return 2
+    scratch = tempfile.mkdtemp(prefix="sl_seed_%s_" % sid)
+    wt = os.path.join(scratch, "wt")
+    env = dict(os.environ, VERIF_SEED=seed, VERIF_OUT=os.path.join(scratch, "out"))
     try:
-        tests = sh("cd /repo && /venv/bin/python -m pytest -q -p no:cacheprovider tests 2>&1 | tail -1").stdout.strip()
-        with_demo = sh("cd /tmp && /venv/bin/python %s" % demo).returncode
-        results = {}
-        with cf.ThreadPoolExecutor(max_workers=int(os.environ.get("SEED_JOBS", "3"))) as ex:
-            for p, rc, clauses, wall in ex.map(run_check, checks):
-                results[p] = {"exit": rc, "clauses": clauses, "wall_s": wall}
-                print(sid, p, "exit", rc, clauses[:6], flush=True)
+        if inplace:
+            if sh("git -C /repo status --porcelain").stdout.strip():
+                print("refusing: /repo is not clean")
+                return 2
+            src = "/repo"
+        else:
+            r = sh("git -C /repo worktree add --detach %s HEAD" % wt)
+            if r.returncode:
+                print("worktree:", r.stderr)
+                return 2
+            src = wt
+            env["PYTHONPATH"] = os.path.join(wt, "src")
+        base_demo = sh("cd /tmp && /venv/bin/python %s" % demo, env=env).returncode
+        r = sh("git -C %s apply %s/patch.diff" % (src, d))
+        if r.returncode:
+            print("patch does not apply:", r.stderr)
+            return 2
+        try:
+            tests = sh("cd %s && /venv/bin/python -m pytest -q -p no:cacheprovider tests 2>&1 | tail -1" % src, env=env).stdout.strip()
+            with_demo = sh("cd /tmp && /venv/bin/python %s" % demo, env=env).returncode
+            # the library under test really is the patched copy
+            where = sh("cd /tmp && /venv/bin/python -c 'import sysloss,os;print(os.path.dirname(sysloss.__file__))'", env=env).stdout.strip()
+            results = {}
+            with cf.ThreadPoolExecutor(max_workers=int(os.environ.get("SEED_JOBS", "3"))) as ex:
+                for p, rc, clauses, wall in ex.map(lambda p: run_check(p, env), checks):
+                    results[p] = {"exit": rc, "clauses": clauses, "wall_s": wall}
+                    print(sid, p, "exit", rc, clauses[:6], flush=True)
+        finally:
+            if inplace:
+                sh("git -C /repo checkout -- .")
     finally:
-        sh("git -C /repo checkout -- .")
-        sh("find %s/replays -type f -delete" % ROOT)
+        if not inplace:
+            sh("git -C /repo worktree remove --force %s" % wt)
+            sh("git -C /repo worktree prune")
+        shutil.rmtree(scratch, ignore_errors=True)
     meta.setdefault("runs", []).append({
-        "when": time.strftime("%Y-%m-%d %H:%M"), "seed": os.environ.get("VERIF_SEED", "0"),
+        "when": time.strftime("%Y-%m-%d %H:%M"), "seed": seed, "library": where,
         "repo_tests_with_patch": tests, "demo_exit_without_patch": base_demo, "demo_exit_with_patch": with_demo,
         "checks": results})
     meta["detected_by"] = sorted({p for run in meta["runs"] for p, v in run["checks"].items() if v["exit"] == 1})
-    meta["missed_by_target"] = meta.get("property") not in meta["detected_by"]
+    last = {}
+    for run in meta["runs"]:
+        for p, v in run["checks"].items():
+            last[p] = v["exit"]
+    meta["detected_by_latest"] = sorted(p for p, e in last.items() if e == 1)
+    meta["missed_by_target"] = last.get(meta.get("property")) != 1
     json.dump(meta, open(meta_path, "w"), indent=1)
-    print(sid, "tests:", tests, "| demo without/with patch:", base_demo, with_demo, "| detected by", meta["detected_by"])
+    print(sid, "tests:", tests, "| demo without/with patch:", base_demo, with_demo, "| detected (latest runs) by", meta["detected_by_latest"])
     return 0
 
 
